@@ -394,7 +394,56 @@ def rule_FIXED(ctx):
                    'inputs have shape (0,) / (n, 0), and the dictionary transforms raise '
                    'IndexError instead of returning the constants'
                    % (unparse(st)[:60], unparse(cols[0])))
+            # ... and keeps its own value: the constant is not cast to the dtype of the input
+            # (integer physical points would truncate a fixed 0.5 to 0 - the sibling of D4)
+            cast = None
+            for x in ast.walk(st.value):
+                if not isinstance(x, ast.Call):
+                    continue
+                d = dotted(x.func) or ''
+                for k in x.keywords:
+                    if k.arg == 'dtype' and any(isinstance(y, ast.Name) and y.id in pts
+                                                for y in ast.walk(k.value)):
+                        cast = x
+                if d in ('np.full_like', 'numpy.full_like') and x.args and any(
+                        isinstance(y, ast.Name) and y.id in pts for y in ast.walk(x.args[0])):
+                    cast = x
+                if isinstance(x.func, ast.Attribute) and x.func.attr == 'astype' and any(
+                        isinstance(y, ast.Name) and y.id in pts
+                        for a in x.args for y in ast.walk(a)):
+                    cast = x
+            ctx.ob(rid, '%s:fixed-value-kept' % q, cast is None, f.where(st),
+                   'the fixed value keeps its own type' if cast is None else
+                   '`%s` casts the fixed value to the dtype of the input points: with integer '
+                   'physical points a fixed 0.5 becomes 0 (and every link to it)'
+                   % unparse(cast)[:60])
     ctx.require(n >= 1, 'D5: fixed-number branch of the dictionary transform not found')
+
+
+def rule_GATE(ctx):
+    rid = 'D7'
+    ctx.rule(rid, 'type gate: add_parameter admits a fixed value by an isinstance test against a '
+             'number class; predicates that also hold for str / bytes (np.isscalar, np.ndim == 0) '
+             'let a wrong-typed declaration into the table')
+    f = ctx.program.func('Prior.add_parameter')
+    tests = [t.test for t in walk_no_nested(f.node) if isinstance(t, (ast.If, ast.IfExp))]
+    loose = [c for t in tests for c in ast.walk(t) if isinstance(c, ast.Call) and
+             (dotted(c.func) or '') in ('np.isscalar', 'numpy.isscalar', 'np.ndim', 'np.isreal',
+                                        'np.isrealobj', 'np.size')]
+    strict = [c for t in tests for c in ast.walk(t) if isinstance(c, ast.Call) and
+              dotted(c.func) == 'isinstance' and len(c.args) == 2 and
+              any(isinstance(y, ast.Attribute) and isinstance(y.value, ast.Name) and
+                  y.value.id == 'numbers' or isinstance(y, ast.Name) and
+                  y.id in ('int', 'float', 'Number', 'Real')
+                  for y in ast.walk(c.args[1]))]
+    ctx.require(loose or strict, 'D7 not decided: no recognisable admission test for fixed '
+                'values in Prior.add_parameter')
+    ok = bool(strict) and not loose
+    ctx.ob(rid, 'Prior.add_parameter:fixed-value-gate', ok, f.where((loose or strict)[0]),
+           'fixed values are admitted by `%s`' % unparse(strict[0])[:50] if ok else
+           '`%s` is true for bytes and str as well: a declaration of the wrong type is stored '
+           'instead of being rejected with TypeError, and fails later inside a transform'
+           % unparse((loose or strict)[0])[:50])
 
 
 def rule_COMPOSE(ctx):
@@ -609,6 +658,7 @@ def run(ctx):
     rule_ICDF(ctx)
     rule_RANGE(ctx)
     rule_TUPLE(ctx)
+    rule_GATE(ctx)
     rule_FIXED(ctx)
     rule_COMPOSE(ctx)
     rule_A1(ctx)
